@@ -31,3 +31,66 @@ pub fn uint<const B: usize, const L: usize>(limbs: &[u64]) -> ruint::Uint<B, L> 
     assert!(L == 0 || a[L - 1] & !gen::mask(B) == 0, "harness: generator produced non-canonical operand");
     ruint::Uint::from_limbs(a)
 }
+
+/// Iterator adaptor that forwards `next` only, so `size_hint` is the trait default `(0, None)` and every
+/// other method is the trait's provided one.
+pub struct NoHint<I>(pub I);
+impl<I: Iterator> Iterator for NoHint<I> {
+    type Item = I::Item;
+    fn next(&mut self) -> Option<I::Item> {
+        self.0.next()
+    }
+}
+
+/// Iterator adaptor that reports only a lower bound (`(inner lower, None)`).
+pub struct LowerOnly<I>(pub I);
+impl<I: Iterator> Iterator for LowerOnly<I> {
+    type Item = I::Item;
+    fn next(&mut self) -> Option<I::Item> {
+        self.0.next()
+    }
+    fn size_hint(&self) -> (usize, Option<usize>) {
+        (self.0.size_hint().0, None)
+    }
+}
+
+/// Feed the items of `$xs` (a `Vec<T>`, `T: Copy`) to the iterator consumer `$meth` (`sum` / `product`)
+/// through iterators of many kinds - sources and adaptors that report their length exactly, only a bound,
+/// or not at all, by value and by reference - and hand each result to the callback macro `$each!(label, expr)`.
+#[macro_export]
+macro_rules! iter_kinds {
+    ($xs:ident, $T:ty, $meth:ident; $each:ident) => {
+        $each!("values.filter", $xs.iter().copied().filter(|_| true).$meth::<$T>());
+        $each!("refs.filter", $xs.iter().filter(|_| true).$meth::<$T>());
+        $each!("values.nohint", $crate::NoHint($xs.iter().copied()).$meth::<$T>());
+        $each!("refs.nohint", $crate::NoHint($xs.iter()).$meth::<$T>());
+        $each!("values.loweronly", $crate::LowerOnly($xs.iter().copied()).$meth::<$T>());
+        $each!("refs.loweronly", $crate::LowerOnly($xs.iter()).$meth::<$T>());
+        $each!("values.vec", $xs.clone().into_iter().$meth::<$T>());
+        $each!("refs.rev", $xs.iter().rev().$meth::<$T>());
+        $each!("refs.flatten", $xs.chunks(2).flatten().$meth::<$T>());
+        $each!("values.flat_map", $xs.chunks(3).flat_map(|c| c.iter().copied()).$meth::<$T>());
+        $each!("values.chain", $xs.iter().copied().chain(core::iter::empty()).$meth::<$T>());
+        $each!("refs.chain-halves", $xs[..$xs.len() / 2].iter().chain($xs[$xs.len() / 2..].iter()).$meth::<$T>());
+        $each!("values.from_fn", {
+            let mut i = 0;
+            core::iter::from_fn(|| {
+                let v = $xs.get(i).copied();
+                i += 1;
+                v
+            })
+            .$meth::<$T>()
+        });
+        $each!("refs.skip_while", $xs.iter().skip_while(|_| false).$meth::<$T>());
+        $each!("values.take_while", $xs.iter().copied().take_while(|_| true).$meth::<$T>());
+        $each!("values.scan", $xs.iter().scan((), |_, v| Some(*v)).$meth::<$T>());
+        $each!("refs.peekable", $xs.iter().peekable().$meth::<$T>());
+        $each!("values.fuse", $xs.iter().copied().fuse().$meth::<$T>());
+        $each!("refs.by_ref", {
+            let mut it = $xs.iter();
+            let r = it.by_ref().$meth::<$T>();
+            assert!(it.next().is_none(), "harness: iterator not exhausted");
+            r
+        });
+    };
+}
